@@ -1,2 +1,121 @@
-"""Property table: per property the evidence explanation / assumptions (filled in below)."""
-PROPS = {f"C{i:02d}": {"explanation": "", "assumptions": [], "trusted": []} for i in range(1, 21)}
+"""Property table: what is decided per property (structural clause), what is not, trusted base."""
+
+COMMON_TRUST = [
+    "CPython `ast` (3.12, the interpreter the repository targets) parses the sources exactly as the build does",
+    "the frozen oracles named in DESIGN.md section 3 (tables written from the Color BASIC / BASIC09 / OS-9 manuals)",
+]
+PEG_TRUST = ["parsimonious.grammar.Grammar applied to the grammar text that the constant folder reconstructs from grammar.py (coco.b09.grammar itself is never imported)"]
+
+PROPS = {
+    "C01": {
+        "clause": "grouping clause only: the PEG precedence ladder assigns every operator its Color BASIC level, the flat text is emitted in source order with the one BASIC09/Color BASIC disagreement parenthesised, function tables map each name to itself, expression kind is derived from operands",
+        "not": "numeric values, float formats, semantics of built-ins, IF branch selection on run-time values",
+        "design": "4/C01",
+    },
+    "C02": {
+        "clause": "narrow: control templates are balanced and every emitted LOOP has an unconditional exit; no parsed statement is dropped (grammar member -> visitor -> field -> text); bare/explicit NEXT pairing",
+        "not": "that the translated program performs the same sequence of statements for all inputs (needs semantics of both languages)",
+        "design": "4/C02",
+    },
+    "C03": {
+        "clause": "narrow: DIM arithmetic (n -> n+1, fill 0..n, implicit bound 10, base 0), pre-initialisation reaches every variable position (traversal), empty-DATA protocol, every numeric PRINT item is recognised by the formatter pass",
+        "not": "READ order, RESTORE, PRINT zone semantics, string function results (value level)",
+        "design": "4/C03",
+    },
+    "C04": {
+        "clause": "for every device statement rule: runtime procedure name, argument count, per position the source operand (in source order) or documented default, for every presence pattern of optional operands; HBUFF prologue iff HBUFF",
+        "not": "what the runtime procedures do with the operands",
+        "design": "4/C04",
+    },
+    "C05": {
+        "clause": "every functional expression is reached by the hoisting pass (traversal + pass order), its call is printed before the host statement on every emission path, visit order = print order, temporaries are fresh",
+        "not": "dynamic call order under actual device values",
+        "design": "4/C05",
+    },
+    "C06": {
+        "clause": "every line-number carrying class announces itself to the collector in every nesting position; filters only clear labels; refusals precede emission; 32700/32699/dispatcher constants agree",
+        "not": "label uniqueness when the source repeats a line number",
+        "design": "4/C06",
+    },
+    "C07": {
+        "clause": "template skeleton balance, no raw parse node / internal object can reach a printed hole, tuple-unpack arity, pre-assignment prefix on every path, constant statements well-formed",
+        "not": "type correctness (excluded by the property), BASIC09's full statement grammar beyond the skeleton",
+        "design": "4/C07",
+    },
+    "C08": {
+        "clause": "optional blanks accepted at every token boundary of every PEG sequence/repetition; raw node text only from terminals and blank-normalised before conversion",
+        "not": "PEG adjacency effects that are not about blanks (keyword glued to a digit)",
+        "design": "4/C08",
+    },
+    "C09": {
+        "clause": "single truncation point of width 2 in both variable visitors, `$` kept, one `arr_` prefix applied and stripped consistently, generated identifiers disjoint from the user identifier language",
+        "not": "clashes with BASIC09 reserved words (not part of the property)",
+        "design": "4/C09",
+    },
+    "C10": {
+        "clause": "every array/string position is reached by the declaring passes, DIM statements exist before the pass that sizes them, DIM arithmetic, no constant DIM repeats an identifier, placeholder substitution",
+        "not": "that sizes suffice at run time",
+        "design": "4/C10",
+    },
+    "C11": {
+        "clause": "forward slice of every convert() option stays inside its documented sinks and reaches all of them; each pass's mutations are within its allowance; CLI flag -> dest -> keyword map with polarity; procname = file stem; \\n -> \\r",
+        "not": "argparse's own behaviour (trusted)",
+        "design": "4/C11",
+    },
+    "C12": {
+        "clause": "no iteration over a set reaches the output unsorted, no nondeterministic source (id/hash/time/random/environ/listdir), no module- or class-level mutable state written, in the transpiler and every decoder",
+        "not": "determinism of third-party code (parsimonious, pydantic, pypng, Pillow)",
+        "design": "4/C12",
+    },
+    "C13": {
+        "clause": "library call graph is closed, the bank's own patterns see every call and header, closure/sort/root-last algorithm shape, quote guard, every placeholder matched, procedure-name language round trip",
+        "not": "text inside (* comments *) is not quote-protected (information only)",
+        "design": "4/C13",
+    },
+    "C14": {
+        "clause": "every RUN the tool can emit and every run inside the library: callee exists, argument count = parameter count, coarse type (string / numeric / record) per position; record declarations identical on both sides",
+        "not": "BASIC09's INTEGER/REAL/BYTE distinction for by-reference arguments",
+        "design": "4/C14",
+    },
+    "C15": {
+        "clause": "partial operations on the conversion path decidable from structure: tuple unpack arity, table subscripts total, numeric conversion of literal text (regular-language inclusion), attribute protocol, procedure-name round trip, only documented exception classes raised",
+        "not": "totality over all strings and termination of the PEG parser",
+        "design": "4/C15",
+    },
+    "C16": {
+        "clause": "six-bit colour code -> RGB in every dump closure (bit-vector equality with the reference term) and all 64 VEF entries; bit fields of every pixel byte partition bits 7..0 MSB first; table index bounds",
+        "not": "artifact-colour arithmetic of MAX -br/-rb, the composite table c2r (no oracle), PIX transposition",
+        "design": "4/C16",
+    },
+    "C17": {
+        "clause": "narrow: every decompressor sends each reconstructed byte through a complete byte-to-pixels path (both nibbles / all pairs)",
+        "not": "decode(encode(x)) = x over all encoder choices (a statement about all byte strings)",
+        "design": "4/C17",
+    },
+    "C18": {
+        "clause": "symbolic sample count of the loop nest equals the header's width x height for every option value the validators admit; binary std streams as defaults; skip consumed once before the header",
+        "not": "pypng/Pillow output validity (trusted)",
+        "design": "4/C18",
+    },
+    "C19": {
+        "clause": "reads that feed output are strict or length-checked; remaining-sample counters cannot be overshot and a data-driven stop fails while positive; refusals precede the first write; every while loop progresses; payload size never depends on an unvalidated file field",
+        "not": "behaviour of each individual corruption",
+        "design": "4/C19",
+    },
+    "C20": {
+        "clause": "narrow: result parameter of ecb_instr / ecb_string / ecb_read_filter is assigned on every normal path; the empty branch of the read filter yields the constant 0 and the other VAL(item); call sites pass operands in the declared positions",
+        "not": "loop bounds and MID$ arithmetic of the helpers (run-time values of a BASIC09 program; needs an interpreter)",
+        "design": "4/C20",
+    },
+}
+
+for _k, _v in PROPS.items():
+    _v["explanation"] = (
+        "Static rule checking over the current source of /repo (no repository code is imported or run). "
+        f"Decided: {_v['clause']}. Not decided (behavioural remainder): {_v['not']}."
+    )
+    _v["assumptions"] = [
+        "the structural clause is a necessary condition of the property, not the whole behaviour",
+        "exception tables in the rule modules (one reason per entry) are correct",
+    ] + COMMON_TRUST
+    _v["trusted"] = COMMON_TRUST + (PEG_TRUST if _k in ("C01", "C02", "C04", "C06", "C07", "C08", "C09", "C15") else [])
